@@ -129,7 +129,12 @@ class Prop(BaseProp):
         # single children requested out of order / repeatedly / with gaps from ONE node object (the master), then the same range in bulk
         ops = [("ckd_chain", [0]), ("ckd_chain", [2]), ("ckd_chain", [1]), ("ckd_chain", [3]), ("gen_children", [], 0, 4),
                ("ckd_chain", [0]), ("ckd_chain", [0]), ("ckd_chain", [2]), ("gen_children", [], 0, 3), ("gen_children", [], 4, 7),
-               ("ckd_chain", [6]), ("ckd_chain", [4]), ("gen_children", [], 4, 7), ("gen_children", [], 0, 4)]
+               ("ckd_chain", [6]), ("ckd_chain", [4]), ("gen_children", [], 4, 7), ("gen_children", [], 0, 4),
+               # as many earlier single derivations inside the interval as the interval is long, but with repeats / a missing index
+               ("ckd_chain", [10]), ("ckd_chain", [10]), ("ckd_chain", [11]), ("ckd_chain", [11]), ("ckd_chain", [12]), ("gen_children", [], 10, 15),
+               ("ckd_chain", [21]), ("ckd_chain", [21]), ("gen_children", [], 20, 22), ("gen_children", [], 20, 23),
+               ("ckd_chain", [H + 9]), ("ckd_chain", [H + 9]), ("ckd_chain", [H + 7]), ("gen_children", [], H + 7, H + 10),
+               ("gen_children", [], 30, 32), ("gen_children", [], 30, 33), ("gen_children", [], 30, 35), ("gen_children", [], 31, 36)]
         cases.append({"kind": "Hist", "seed": seed, "testnet": False, "ops": ops, "threads": 0})
         # a legal schedule made deterministic: while generate_children of one "thread" is between two derivation steps
         # (at its at-th HMAC call) another "thread" runs a complete ckd on the SAME node object
